@@ -4,7 +4,7 @@ from lib.coqterm import cbool, cbytes, clist, copt, cN, cZ, hx, unhx
 
 ID = "C07"
 QUICK_N = 3000
-THOROUGH_N = 50000
+THOROUGH_N = 24000
 SHARD = 250
 RULE = ("10% operation sequences on a real BufferedH2Connection (1-3 streams, stream window 0-30, connection window 0-50 or default, sends of 0-40 bytes, window updates of 1-200, then re-opened in small steps until drained), 6% bodies relayed by a real HttpLayer over an HTTP/2 leg (h2 client or h2 upstream, INITIAL_WINDOW_SIZE 0-16, updates of 1-9, stream callables); of the rest: 85% exchanges through a real HttpLayer (regular mode, HTTP/1.1, one POST): body_size_limit / stream_large_bodies "
         "from a dictionary of size strings (unset, empty, small ints, signs, underscores, spaces, k suffix, invalid), "
